@@ -103,7 +103,11 @@ def build(ctx, spec, name=None, base_executor=None):
         elif t == "poll":
             pf = b.fns["poll%d" % k] = Recorded("poll%d" % k, make_poll_fn(L.get("mode", "first"), k, b),
                                                 keep_args=spec.get("keep_args", True))
-            cur = _with(cur, "poll", pf, None, L.get("interval", 0.002))
+            cf = None
+            if L.get("cancel_fn") == "consent":
+                # a cancel function with an effect of its own (it cancels the remote task) that consents
+                cf = b.fns["pcancel%d" % k] = Recorded("pcancel%d" % k, lambda idx, r: True, keep_args=spec.get("keep_args", True))
+            cur = _with(cur, "poll", pf, cf, L.get("interval", 0.002))
         elif t == "throttle":
             c = L.get("count", 2)
             if c == "callable":
